@@ -16,6 +16,7 @@ import (
 
 	"verif/harness/chain"
 	"verif/harness/core"
+	"verif/harness/evmasm"
 	"verif/harness/fix"
 )
 
@@ -483,7 +484,20 @@ func (r *poolRun) opCancel(cn string) {
 	before := r.snapshot()
 	var ok bool
 	var errStr string
-	if r.rng.IntN(3) == 0 {
+	if kind := r.rng.IntN(6); kind == 0 && !third {
+		// the owner calls somebody's contract, which asks the precompile to cancel: the precompile's caller is
+		// the contract, not the owner (forwarder: fails when the inner call fails)
+		if r.fwd == (common.Address{}) {
+			if a, err := r.c.Deploy(r.c.Users[3], evmasm.Forwarder(evmasm.CALL)); err == nil {
+				r.fwd = a
+			}
+		}
+		pc := fix.PrecompileCrosschain()
+		er := r.c.EthTx(owner, &r.fwd, evmasm.ForwardData(pc, fix.PackCrosschain("cancelSendToExternal", cn, new(big.Int).SetUint64(id))), nil, 3_000_000)
+		ok, errStr = !er.Failed(), er.VmError()
+		third = true
+		r.res.Count("cancels_through_a_contract", 1)
+	} else if kind <= 2 {
 		pc := fix.PrecompileCrosschain()
 		er := r.c.EthTx(who, &pc, fix.PackCrosschain("cancelSendToExternal", cn, new(big.Int).SetUint64(id)), nil, 3_000_000)
 		ok, errStr = !er.Failed(), er.VmError()
